@@ -122,6 +122,12 @@ func (chain *groupChain) AddGroup(group *types.Group) error {
 	if nil == group {
 		return fmt.Errorf("nil group")
 	}
+	// group records share their key space with the height index (8-byte keys, as is the
+	// last-group pointer's key) and the count entry: an id of such a shape would overwrite
+	// them or be overwritten by them
+	if l := len(group.Id); l == 0 || l == 8 || string(group.Id) == groupCountKey {
+		return fmt.Errorf("illegal group id:%v", group.Id)
+	}
 
 	if logger != nil {
 		logger.Debugf("Group chain add group %+v", common.Bytes2Hex(group.Id))
